@@ -8,7 +8,8 @@ EXPLANATION = (
     "(and by import under key-sync), the puncturable key only by new / puncture / import - hence the public key "
     "is constant over any eval/puncture history and eval cannot change state; (R2) Server::eval answers only "
     "when the tag is present in the public key map (BadTag otherwise), the PRF error of a punctured tag is "
-    "propagated, and Server::new registers exactly the given tags; (R3) the answer contains no random atom: it is "
+    "propagated, Server::new registers exactly the given tags, and every Ok of Server::puncture is the Ok of the "
+    "key-level puncture of the given tag, which removes the covering node on every Ok path (C11.R2); (R3) the answer contains no random atom: it is "
     "a function of (state, point, tag) (proof nonce excluded); (R4) export/import field tables agree and import "
     "replaces the whole state with the imported values unconditionally (C11.R4 re-run under feature key-sync); "
     "(R5) Server and everything it contains derive Clone over types without shared ownership or interior "
@@ -27,6 +28,8 @@ def run(ctx):
     c10.writers(ctx, "C14.R1", "A")
     c10.writers(ctx, "C14.R1", "B")
     ctx.floor("C14.R1", 12)
+    c11.server_puncture_passes_through(ctx, "C14.R2")
+    c11.covering_removed(ctx, "C14.R2")
     # eval takes &self and writes nothing
     root = P + "Server::eval"
     eng, ret, st, fr = ctx.root(root)
@@ -79,7 +82,7 @@ def run(ctx):
         okb = base is not None and Q.contains(base, lambda t: t is ok_k) and bool(Q.rngs(Q.leaves(ok_k)))
         ctx.add("C14.R2", rootn + "#base-key-commits-to-oprf-key", okb,
                 "the base public key must be computed from the freshly drawn oprf key", atn)
-    ctx.floor("C14.R2", 5)
+    ctx.floor("C14.R2", 8)
 
     # ---- R3 deterministic answer ----------------------------------------------------------------------------
     okv = ok_variant(ret, 0)
